@@ -52,6 +52,10 @@ ASSUMPTIONS = ['one application; its Request/Response objects were constructed b
 SETUP = [[0, 'init_req0', 0], [0, 'new_resp', 0]]
 
 
+# tools/check.py: a case cut off by its wall-clock limit is judged by oracle() here (sched.judge re-runs it with
+# generous limits and reports a hang only when that is inconclusive again), not by the generic rule
+JUDGES_HANG = True
+
 def _ops(threads, order):
     """threads: list of command lists (without the thread number); order: list of thread indices"""
     return dict(kind='ops', threads=threads, order=order)
